@@ -218,15 +218,17 @@ TIE_LINEPOS = TIE_LEN + ["line_start_tie", "linePosBody_eq", "line_pos_loop", "i
 TIE_CATCHUP = ["cacheOpen_follows_plan", "add_missing_data_tie"]
 TIE_PROCESS = ["process_tie"]
 TIE_SAMPLER = ["sampler_process_tie"]
+TIE_PUSHLINE = ["time_range_update_tie", "push_line_tie"]
 TIES = {
+    "C16": ["push_line_tie", "time_range_update_tie", "process_tie"],
     "C01": TIE_SEEK + TIE_META, "C02": TIE_SEEK, "C13": TIE_SEEK, "C18": TIE_SEEK,
     "C14": TIE_SEEK + ["pos_lines_tie"], "C10": TIE_SEEK + ["pos_lines_tie"] + TIE_SAMPLER,
     "C11": TIE_SEEK + ["pos_lines_tie", "estimate_lines_tie", "data_len_tie"] + TIE_SAMPLER,
     "C19": TIE_SEEK + ["pos_lines_tie", "estimate_lines_tie"] + [t for t in TIE_LINEPOS if t not in TIE_SEEK] + TIE_CATCHUP + TIE_PROCESS,
-    "C09": TIE_LINEPOS + TIE_CATCHUP + TIE_PROCESS, "C08": TIE_LINEPOS + TIE_CATCHUP + TIE_PROCESS,
-    "C12": TIE_LEN + ["range_tie", "first_meta_timestamp_tie", "time_range_update_tie"],
+    "C09": TIE_LINEPOS + TIE_CATCHUP + TIE_PROCESS, "C08": TIE_LINEPOS + TIE_CATCHUP + TIE_PROCESS + TIE_PUSHLINE,
+    "C12": TIE_LEN + ["range_tie", "first_meta_timestamp_tie"] + TIE_PUSHLINE,
     "C04": TIE_LEN + TIE_META, "C05": TIE_LEN, "C06": TIE_LEN + TIE_META,
-    "C07": TIE_LAYOUT + TIE_META, "C15": TIE_LAYOUT + TIE_META, "C03": ["MAX_SMALL_TS_tie", "time_range_update_tie", "process_tie"],
+    "C07": TIE_LAYOUT + TIE_META, "C15": TIE_LAYOUT + TIE_META, "C03": ["MAX_SMALL_TS_tie", "process_tie"] + TIE_PUSHLINE,
 }
 
 # property-level statements about the TRANSLATED functions (BS/Props/GenCore.lean)
